@@ -31,6 +31,11 @@ TRICKY = ["1j", "(3+5j)", "-1", "-1.5", "1e100", "-0.0", "inf", "2**64", "((0,),
           "[1j, -1]", "{'k': (3+5j)}", "{1j: 0}", "[[]]", "{'a': {}}", "None", "True", "{(0,): 1}", "[' a', 'b ']", "'é🐍'", "'\\t'", "'\\\\'"]
 
 
+EXT_SITES = [{"st": "assert outsource('text-1') == snapshot()", "n": ["outsource"]},
+             {"st": "assert [outsource(b'bytes-2')] == snapshot([0])", "n": ["outsource"]},
+             {"st": "assert snapshot()['k'] == outsource('text-3')", "n": ["outsource"]}]
+
+
 def bounds(tier):
     return {"sites": len(_sites(tier)), "approved_sets": 16, "history_len": 2 if tier == "quick" else 3}
 
@@ -81,7 +86,7 @@ def build(tier, seed):
     step = max(1, len(sites) // (12 if tier == "quick" else 60))
     for F in (FS if tier == "thorough" else [list(CATS), ["create", "fix"], ["update"], ["trim", "update"]]):
         for off in range(0, step if tier == "thorough" else 2):
-            sel = sites[off::step][:25]
+            sel = sites[off::step][:25] + EXT_SITES
             tasks.append({"plugin": [dict(s, F=F) for s in sel], "F": F})
     return tasks
 
